@@ -24,7 +24,7 @@
    offset, special style outside mania). *)
 From RM Require Import Model.EncSpec Proofs.EncFmt Proofs.EncSimple Proofs.EncImage Proofs.EncEdit Proofs.EncRound.
 From RM Require Import Model.EncPathSpec Model.HitObjectSpec Proofs.EncPathRT Proofs.EncPathImage Proofs.EncPathExamples.
-From RM Require Import Model.EncObjCarry Proofs.EncObjTimes Proofs.EncObjectsRT.
+From RM Require Import Model.EncObjCarry Proofs.EncObjTimes Proofs.EncObjectsRT Proofs.Enc3Times.
 From RM Require Import Model.EncTimingSpec Proofs.ControlPointsFacts Proofs.EncTimingParse
   Proofs.EncCollect Proofs.EncGroups Proofs.EncTimingInv Proofs.EncTimingRT Proofs.EncTimingExample Proofs.EncTimingImage
   Proofs.TimingPointsValues.
@@ -396,12 +396,80 @@ Proof.
 Qed.
 Print Assumptions C02_decoded_hold_round_trip_partial.
 
-(* integer-valued times (PARTIAL: the general IEEE statement is open, see Proofs/EncObjTimes.v) *)
+(* integer-valued times (PARTIAL: the general IEEE statement is FALSE -- C02_times_ok_refuted below,
+   known finding D33; wider classes: C02_times_ok_exact_difference, C02_times_ok_grid) *)
 Theorem C02_times_ok_partial :
   forall a b, Z.abs a < 2 ^ 53 -> 0 <= b < 2 ^ 53 -> Z.abs (a + b) < 2 ^ 53 ->
   spinner_time_ok (D.of_Z a) (D.of_Z b) /\ hold_time_ok (D.of_Z a) (D.of_Z b).
 Proof. exact decoded_times_ok_partial. Qed.
 Print Assumptions C02_times_ok_partial.
+
+(* The FULL statement of the time condition -- for all start / end times the line reader accepts,
+   with [spinner_dur s e] = (e - s).max(0.0) and [hold_dur s e] = max(s, e) - s the durations the
+   decoder stores:
+
+     forall s e, in_lim64 s = true -> in_lim64 e = true ->
+       spinner_time_ok s (spinner_dur s e) /\ hold_time_ok s (hold_dur s e)
+
+   is FALSE (known finding D33, confirmed on the crate: probes/D33_probe).  Start 2^-43, end
+   1024 + 2^-42: the stored duration is 1024 (end - start is a half-ulp tie), the written end is
+   1024, the duration read back is 1023.9999999999999, for the spinner and for the hold. *)
+Theorem C02_times_ok_refuted :
+  exists s e,
+    in_lim64 s = true /\ in_lim64 e = true /\
+    D.bits s = 4413527634823086080 /\ D.bits e = 4652218415073722369 /\
+    D.bits (spinner_dur s e) = 4652218415073722368 /\ D.bits (hold_dur s e) = 4652218415073722368 /\
+    D.bits (f64_max_lit (D.sub (D.add s (spinner_dur s e)) s) D.zero) = 4652218415073722367 /\
+    D.bits (D.sub (D.max s (D.add s (hold_dur s e))) s) = 4652218415073722367 /\
+    ~ spinner_time_ok s (spinner_dur s e) /\ ~ hold_time_ok s (hold_dur s e).
+Proof. exact times_ok_refuted. Qed.
+Print Assumptions C02_times_ok_refuted.
+
+(* what IS true, for all binary64 times: the duration survives whenever the end the encoder writes
+   is the end that was read ... *)
+Theorem C02_times_ok_of_end :
+  forall s e,
+  (D.add s (spinner_dur s e) = e -> spinner_time_ok s (spinner_dur s e)) /\
+  (D.add s (hold_dur s e) = e -> D.lt s e = true -> hold_time_ok s (hold_dur s e)).
+Proof. exact times_ok_of_end. Qed.
+Print Assumptions C02_times_ok_of_end.
+
+(* ... and whenever end - start is a binary64 number (no rounding in the decoder's subtraction).
+   Left open between this class and D33: pairs whose difference is rounded but whose duration
+   still survives (the common case for fractional times; the oracle checks each one). *)
+Theorem C02_times_ok_exact_difference :
+  forall s e, in_lim64 s = true -> in_lim64 e = true ->
+  Generic_fmt.generic_format Zaux.radix2 (SpecFloat.fexp 53 1024) (Rdefinitions.Rminus (B2R e) (B2R s)) ->
+  spinner_time_ok s (spinner_dur s e) /\ hold_time_ok s (hold_dur s e).
+Proof. exact times_ok_exact. Qed.
+Print Assumptions C02_times_ok_exact_difference.
+
+(* in particular: both times multiples of 2^-k, difference below 2^(53-k); k = 0: whole
+   milliseconds within the parse limits; every pair of accepted times on the 2^-21 ms grid *)
+Theorem C02_times_ok_grid :
+  forall k a b s e,
+  0 <= k <= 1074 -> in_lim64 s = true -> in_lim64 e = true ->
+  B2R s = Rdefinitions.Rmult (Rdefinitions.IZR a) (Raux.bpow Zaux.radix2 (- k)) ->
+  B2R e = Rdefinitions.Rmult (Rdefinitions.IZR b) (Raux.bpow Zaux.radix2 (- k)) ->
+  Z.abs (b - a) < 2 ^ 53 ->
+  spinner_time_ok s (spinner_dur s e) /\ hold_time_ok s (hold_dur s e).
+Proof. exact times_ok_grid. Qed.
+Print Assumptions C02_times_ok_grid.
+
+Theorem C02_times_ok_whole_milliseconds :
+  forall a b, Z.abs a <= max_parse_value -> Z.abs b <= max_parse_value ->
+  spinner_time_ok (D.of_Z a) (spinner_dur (D.of_Z a) (D.of_Z b)) /\
+  hold_time_ok (D.of_Z a) (hold_dur (D.of_Z a) (D.of_Z b)).
+Proof. exact times_ok_whole. Qed.
+Print Assumptions C02_times_ok_whole_milliseconds.
+
+Theorem C02_times_ok_grid21 :
+  forall a b s e, in_lim64 s = true -> in_lim64 e = true ->
+  B2R s = Rdefinitions.Rmult (Rdefinitions.IZR a) (Raux.bpow Zaux.radix2 (- 21)) ->
+  B2R e = Rdefinitions.Rmult (Rdefinitions.IZR b) (Raux.bpow Zaux.radix2 (- 21)) ->
+  spinner_time_ok s (spinner_dur s e) /\ hold_time_ok s (hold_dur s e).
+Proof. exact times_ok_grid21. Qed.
+Print Assumptions C02_times_ok_grid21.
 
 Theorem C02_int_end_in_limit :
   forall a b, Z.abs a < 2 ^ 53 -> Z.abs b < 2 ^ 53 -> Z.abs (a + b) <= max_parse_value ->
